@@ -67,7 +67,7 @@ private def fixture : OffsetCommit :=
 
 example : fixture.WF := by
   simp only [OffsetCommit.WF, fixture, s, strOK, InRange]
-  decide
+  decide +kernel
 
 example : fixture.encKey = [0, 1, 0, 9] ++ "testgroup".toUTF8.toList ++ [0, 9] ++ "testtopic".toUTF8.toList ++ [0, 0, 0, 0x0b] := by
   decide +kernel
